@@ -672,57 +672,89 @@ func checkC14(w *World, r *Report) {
 	r.guard("R14.6", func() {
 		dd := w.Method("compile", "deviateDelete", "propertyAction")
 		fd, _ := w.FuncDecl(dd)
-		var found types.Object
 		okDel := false
-		ast.Inspect(fd.Body, func(x ast.Node) bool {
-			switch y := x.(type) {
-			case *ast.AssignStmt:
-				if len(y.Rhs) == 1 {
-					if ce, ok := y.Rhs[0].(*ast.CallExpr); ok {
-						if c := calleeOf(p, ce); c != nil && nm(c) == "LookupChild" && len(ce.Args) == 2 {
-							found = objOfIdent(p, y.Lhs[0])
-						}
+		if df := w.SSAFunc(dd); df != nil && len(df.Params) == 3 {
+			target, property := df.Params[1], df.Params[2]
+			sym := NewSym(w)
+			invokeOn := func(v ssa.Value, ctx *symCtx, name string, on *ssa.Parameter) *ssa.Call {
+				c, ok := sym.Resolve(v, ctx).(*ssa.Call)
+				if !ok || !c.Call.IsInvoke() || nm(c.Call.Method) != name || sym.Resolve(c.Call.Value, ctx) != ssa.Value(on) {
+					return nil
+				}
+				return c
+			}
+			nRemoved, good := 0, true
+			callsWithCtx(df, 2, func(c *ssa.Call, ctx *symCtx) {
+				if !c.Call.IsInvoke() || nm(c.Call.Method) != "ReplaceChild" || len(c.Call.Args) != 2 {
+					return
+				}
+				nRemoved++
+				if sym.Resolve(c.Call.Value, ctx) != ssa.Value(target) {
+					good = false
+				}
+				if k, isK := c.Call.Args[1].(*ssa.Const); !isK || !k.IsNil() {
+					good = false // something is put in its place
+				}
+				os := sym.Origins(c.Call.Args[0], ctx, 0)
+				for _, o := range os {
+					lc := invokeOn(o.v, o.ctx, "LookupChild", target)
+					if lc == nil || len(lc.Call.Args) != 2 || invokeOn(lc.Call.Args[0], o.ctx, "Type", property) == nil || invokeOn(lc.Call.Args[1], o.ctx, "Name", property) == nil {
+						good = false
 					}
 				}
-			case *ast.CallExpr:
-				if c := calleeOf(p, y); c != nil && nm(c) == "ReplaceChild" && len(y.Args) == 1 && found != nil && objOfIdent(p, y.Args[0]) == found {
-					okDel = true
-				}
-			}
-			return true
-		})
+				good = good && len(os) > 0
+			})
+			okDel = good && nRemoved > 0
+		}
 		r.Check(okDel, "R14.6", "deviateDelete.propertyAction", fd.Pos(), "removes the child LookupChild(type, argument) found", "deviate delete does not remove exactly the statement matched by type and argument (with several must/unique statements the wrong one is removed)")
 		dr := w.Method("compile", "deviateReplace", "propertyAction")
 		rfd, _ := w.FuncDecl(dr)
 		okRep := false
 		exists := false
-		ast.Inspect(rfd.Body, func(x ast.Node) bool {
-			if ce, ok := x.(*ast.CallExpr); ok {
-				if c := calleeOf(p, ce); c != nil && nm(c) == "ReplaceChildByType" && len(ce.Args) == 2 && objOfIdent(p, ce.Args[1]) == paramObj(p, rfd, 1) {
-					okRep = true
-				}
-			}
-			if is, ok := x.(*ast.IfStmt); ok {
-				if be, ok := ast.Unparen(is.Cond).(*ast.BinaryExpr); ok && be.Op == token.EQL {
-					if v, ok := ConstInt(p, be.Y); ok && v == 0 && len(returnsIn(is.Body)) == 1 {
-						exists = true
+		if rf := w.SSAFunc(dr); rf != nil && len(rf.Params) == 3 {
+			sym := NewSym(w)
+			callsWithCtx(rf, 2, func(c *ssa.Call, ctx *symCtx) {
+				if c.Call.IsInvoke() && nm(c.Call.Method) == "ReplaceChildByType" && len(c.Call.Args) == 2 &&
+					sym.Resolve(c.Call.Value, ctx) == ssa.Value(rf.Params[1]) {
+					if mi, isMI := sym.Resolve(c.Call.Args[1], ctx).(*ssa.MakeInterface); isMI {
+						okRep = sym.Resolve(mi.X, ctx) == ssa.Value(rf.Params[2])
+					} else {
+						okRep = sym.Resolve(c.Call.Args[1], ctx) == ssa.Value(rf.Params[2])
 					}
 				}
-			}
-			return true
-		})
+			})
+		}
+		for _, hfd := range localHelperDecls(w, p, dr) {
+			ast.Inspect(hfd.Body, func(x ast.Node) bool {
+				if is, ok := x.(*ast.IfStmt); ok {
+					if be, ok := ast.Unparen(is.Cond).(*ast.BinaryExpr); ok && (be.Op == token.EQL || be.Op == token.LSS) {
+						if v, ok := ConstInt(p, be.Y); ok && ((v == 0 && be.Op == token.EQL) || (v == 1 && be.Op == token.LSS)) && len(returnsIn(is.Body)) == 1 {
+							exists = true
+						}
+					}
+				}
+				return true
+			})
+		}
 		r.Check(okRep && exists, "R14.6", "deviateReplace.propertyAction", rfd.Pos(), "must exist; ReplaceChildByType(type, property)", "deviate replace does not require the property to exist or does not substitute it by type")
 		da := w.Method("compile", "deviateAdd", "propertyAction")
 		afd, _ := w.FuncDecl(da)
 		okAdd := false
-		ast.Inspect(afd.Body, func(x ast.Node) bool {
-			if ce, ok := x.(*ast.CallExpr); ok {
-				if c := calleeOf(p, ce); c != nil && nm(c) == "AddChildren" && len(ce.Args) == 1 && objOfIdent(p, ce.Args[0]) == paramObj(p, afd, 1) {
-					okAdd = true
+		if af := w.SSAFunc(da); af != nil && len(af.Params) == 3 {
+			sym := NewSym(w)
+			callsWithCtx(af, 2, func(c *ssa.Call, ctx *symCtx) {
+				if !c.Call.IsInvoke() || nm(c.Call.Method) != "AddChildren" || len(c.Call.Args) != 1 || sym.Resolve(c.Call.Value, ctx) != ssa.Value(af.Params[1]) {
+					return
 				}
-			}
-			return true
-		})
+				// the variadic list holds exactly the property
+				for _, el := range sliceLiteralElems(c.Call.Args[0]) {
+					if sym.Resolve(el, ctx) == ssa.Value(af.Params[2]) {
+						okAdd = true
+					}
+				}
+			})
+		}
+		_ = afd
 		r.Check(okAdd, "R14.6", "deviateAdd.propertyAction", afd.Pos(), "AddChildren(property)", "deviate add does not append the property to the target")
 	})
 }
